@@ -67,6 +67,14 @@ def _stream_replay(ctx, binp, path, label):
     ctx.replayed += res["behaviours"]
     ctx.log("replayed %d stream behaviours (%d steps) on a real RF=1 leader [%s]: %d mismatch class(es)" %
             (res["behaviours"], res["steps"], label, len(res["mismatches"])))
+    if res.get("unreproduced"):
+        # seen under heavy machine load only: the dispatcher is not parked yet when the next commit arrives and misses
+        # its wake-up (notificationsTracker.UpdatedCommitOffset broadcasts without the tracker's mutex) - a delay
+        # until the next commit, not a loss; never a verdict, but more than a few mean that the run says nothing
+        ctx.log("%d mismatch(es) were gone on re-execution (timing), first: %s" % (res["unreproduced"], res["unreproducedFirst"][:300]))
+        ctx.unreproduced = getattr(ctx, "unreproduced", 0) + res["unreproduced"]
+        if ctx.unreproduced > 3:
+            raise vf.Inconclusive("%d stream mismatches did not reproduce on re-execution, first: %s" % (ctx.unreproduced, res["unreproducedFirst"][:500]))
     for i, mm in enumerate(res["mismatches"]):
         mm["kind"] = "stream"
         p = ctx.save_replay("c17-%s-%d.json" % (label, i), mm)
